@@ -135,6 +135,18 @@ impl AssocFileData {
         bail!("no loop found")
     }
 
+    /// The number of scopes from the innermost one up to and including the scope of the
+    /// enclosing function (`None` outside of a function).
+    pub fn scopes_in_function(&self) -> Option<usize> {
+        for (count, scope) in self.scopes.iter().enumerate() {
+            if scope.is_function() {
+                return Some(count + 1);
+            }
+        }
+
+        None
+    }
+
     pub fn register_function_parameters_to_scope(
         &self,
         parameters: Rc<FunctionParameters>,
